@@ -146,7 +146,7 @@ func genC03(r *rand.Rand, idx int, tier string) *OptCase {
 	if tier == "thorough" {
 		nmax = 13
 	}
-	fams := []string{"cnf", "card", "pb", "pb", "cnf3", "longclauses"}
+	fams := []string{"cnf", "card", "pb", "pb", "cnf3", "longclauses", "unitrich"}
 	fam := fams[r.Intn(len(fams))]
 	n := 2 + r.Intn(nmax-1)
 	if fam == "cnf3" {
@@ -165,6 +165,25 @@ func genC03(r *rand.Rand, idx int, tier string) *OptCase {
 		genCost(r, nv, c, false)
 		if r.Intn(5) == 0 {
 			c.NilWs = true
+		}
+	}
+	if !c.NoCost && len(c.CostLits) > 0 && r.Intn(3) == 0 {
+		// some cost literals are decided by unit constraints (forced false or true at top level), with a large coefficient
+		for k := 1 + r.Intn(2); k > 0; k-- {
+			i := r.Intn(len(c.CostLits))
+			l := c.CostLits[i]
+			if r.Intn(3) != 0 {
+				l = -l
+			}
+			p.Cons = append(p.Cons, Con{Kind: "clause", Lits: []int{l}})
+			if !c.NilWs && r.Intn(2) == 0 {
+				c.CostWs[i] = 5 + r.Intn(20)
+			}
+		}
+		if r.Intn(2) == 0 { // units first
+			last := p.Cons[len(p.Cons)-1]
+			copy(p.Cons[1:], p.Cons[:len(p.Cons)-1])
+			p.Cons[0] = last
 		}
 	}
 	// OPB text route (with min: line), sometimes with negative cost coefficients
